@@ -121,6 +121,9 @@ func RunSelftest(verifDir, repoDir, prop string, vpBin string) int {
 			survivors++
 			if code == 2 {
 				mr.Note = "check reported BROKEN (exit 2)"
+				if strings.Contains(ob.String(), "reason=load: package load errors") {
+					status = "INVALID-MUTANT (does not compile)"
+				}
 			}
 		} else if !mr.ByExpected {
 			status = "KILLED (by another obligation than expected)"
